@@ -146,8 +146,8 @@ theorem Pending.readdir {S : Spool} {name0 input : Bytes} {fid0 : Nat} {w : Worl
 theorem Done.step {S : Spool} {env : PEnv} {orc : EvalOracles} {expr : Expr} {input name0 : Bytes} {w : World}
     (h : Done S env orc expr input name0 w) (c : Call) (r : Res) (hc : Harmless c) :
     Done S env orc expr input name0 (stepWorld w c r) := by
-  obtain ⟨fl, h1, h2⟩ := h
-  exact ⟨fl, h1, h2.step c r hc⟩
+  obtain ⟨fl, as, h1, h2⟩ := h
+  exact ⟨fl, as, h1, h2.step c r hc⟩
 
 /-- The walk over the spool. `pending`: the spooled name is still to come. -/
 theorem spec_walk_sp (S : Spool) (hS : SpoolShape S) (env : PEnv) (orc : EvalOracles) (expr : Expr) (name0 input : Bytes)
